@@ -3,13 +3,15 @@ from __future__ import annotations
 
 from . import streams as ST
 
-METHODS = [b"GET", b"GET", b"POST", b"HEAD", b"PUT", b"get", b"OPTIONS"]
+METHODS = [b"GET", b"GET", b"POST", b"HEAD", b"PUT", b"get", b"OPTIONS", b"CONNECT"]
 TARGETS = [b"/", b"/a/b?x=1", b"/p%20q", b"*", b"/caf%C3%A9"]
 
 
 def gen_request(rng, allow_special=True):
     method = rng.choice(METHODS)
     target = rng.choice(TARGETS)
+    if method == b"CONNECT" and rng.random() < 0.7:
+        target = b"example.com:443"       # a 2xx answer to CONNECT is a protocol switch to h11 (SWITCHED_PROTOCOL)
     version = b"HTTP/1.1" if rng.random() < 0.8 else b"HTTP/1.0"
     hs = [(b"Host", rng.choice([b"example.com", b"example.com", b"other.test", b"ex\xffmple.com", b"\xe9"]))]     # h11 lets obs-text through
     body = b""
